@@ -19,7 +19,7 @@ RULE = ('multi-segment multi-chunk model files with several channels; non-trivia
         'other channels and has >=2 chunks; distinct = (per-segment signatures, channel)')
 ASSUMPTIONS = ['"constant number of bytes per segment touched" = the 4-byte segment tag the reader verifies before reading a segment',
                'an empty request may touch at most the one chunk containing its offset']
-REQUIRED = ['short_last_files', 'truncated_files', 'daqmx_files', 'requests', 'reads_checked', 'cached_index_checked', 'bytes_allowed', 'requests_partial']
+REQUIRED = ['stepped_slices', 'short_last_files', 'truncated_files', 'daqmx_files', 'requests', 'reads_checked', 'cached_index_checked', 'bytes_allowed', 'requests_partial']
 N = {'quick': 800, 'thorough': 200000}
 
 
@@ -249,6 +249,21 @@ def run_case(case, ctx):
                 mark = stream.mark()
                 ch[a:b2]
                 judge(ctx, stream, mark, regs, 'slice/' + layk, {'path': p, 'slice': (a, b2), 'n': n, 'segments': desc})
+            # stepped and reversed slices
+            for _ in range(12):
+                a, b2 = rng.choice([None] + list(range(-n, n + 1))), rng.choice([None] + list(range(-n, n + 1)))
+                st = rng.choice([2, 3, -1, -1, -2, -3])
+                i0, i1, _ = slice(a, b2, st).indices(n)
+                # the request is the index range the slice spans (from start to stop), not only the selected elements
+                lo, hi = (i0, i1) if st > 0 else (i1 + 1, i0 + 1)
+                if lo >= hi:
+                    lo, hi = 0, 0
+                regs, hit = allowed_for(table, lay, lo, hi, empty_at=None)
+                mark = stream.mark()
+                ch[a:b2:st]
+                ctx.count('stepped_slices')
+                judge(ctx, stream, mark, regs, 'stepped-slice/%s/%s' % ('reversed' if st < 0 else 'forward', layk),
+                      {'path': p, 'slice': (a, b2, st), 'n': n, 'segments': desc})
             # integer index, then again into the chunk just read
             for _ in range(10):
                 i = rng.randrange(n)
